@@ -1,6 +1,7 @@
 package main
 
 import (
+	"os"
 	"fmt"
 	"go/token"
 	"go/types"
@@ -63,6 +64,8 @@ func extend(l, seg string) string {
 
 type ModAnalysis struct {
 	prog  *Program
+	// sortExempt: sort.Ints on a location ending in this field is not counted as a write (observable write sets)
+	sortExempt string
 	// Caps(f): "dst <- src" pairs: a reference rooted at src (parameter/global) is stored into
 	// memory rooted at dst (parameter/global) by f or its callees — the object at dst now aliases src.
 	Caps  map[*ssa.Function]locSet
@@ -89,9 +92,13 @@ type ModAnalysis struct {
 	exempt map[*ssa.Function]bool
 }
 
+// modExemptSortField: set while the "observable write set" instance is built — sort.Ints on this field is not a write.
+var modExemptSortField string
+
 func newModAnalysis(p *Program, exempt ...*ssa.Function) *ModAnalysis {
 	m := &ModAnalysis{prog: p, exempt: map[*ssa.Function]bool{}, Caps: map[*ssa.Function]locSet{}, Mods: map[*ssa.Function]locSet{}, Rets: map[*ssa.Function][]locSet{}, known: map[*ssa.Function]bool{},
 		allocID: map[ssa.Value]int{}, allocVal: map[string]ssa.Value{}, deep: map[*ssa.Function]locSet{}, deepBusy: map[*ssa.Function]bool{}, pts: map[*ssa.Function]map[string]locSet{}, AssumedPure: map[string]bool{}, impls: map[string][]*ssa.Function{}, DynCalls: map[string]bool{}}
+	m.sortExempt = modExemptSortField
 	for _, f := range exempt {
 		if f != nil {
 			m.exempt[f] = true
@@ -560,6 +567,9 @@ func (m *ModAnalysis) analyse(f *ssa.Function) {
 				}
 				if caps.add(d + " <- " + sl) {
 					m.changed = true
+					if os.Getenv("DDV_DEBUG_CAP") != "" {
+						fmt.Fprintf(os.Stderr, "CAP %s: %s <- %s\n", funcName(f), d, sl)
+					}
 				}
 			}
 		}
@@ -590,6 +600,18 @@ func (m *ModAnalysis) analyse(f *ssa.Function) {
 			if ws, ok := libWrites[name]; ok {
 				for _, i := range ws {
 					if i < len(com.Args) {
+						if m.sortExempt != "" && name == "sort.Ints" {
+							// observable write sets: sorting the paginated store's buffer is a reorganisation
+							all := true
+							for l := range a.derive(com.Args[i]) {
+								if !strings.HasSuffix(l, "."+m.sortExempt) {
+									all = false
+								}
+							}
+							if all {
+								continue
+							}
+						}
 						writeAll(a.derive(com.Args[i]), "[*]")
 					}
 				}
@@ -613,6 +635,44 @@ func (m *ModAnalysis) analyse(f *ssa.Function) {
 			writeAll(a.derive(com.Args[0]), "[*]")
 			if sl, ok := com.Args[0].Type().Underlying().(*types.Slice); ok && isRefLike(sl.Elem()) {
 				addCap(a.ext(a.derive(com.Args[0]), "[*]"), a.ext(a.derive(com.Args[1]), "[*]"))
+			}
+		case "append":
+			// append(dst, src...) with reference-like elements ([]float64 pages, pointers, maps): the elements of
+			// the result (which may be dst's own backing array) alias the elements of src
+			if sl, ok := com.Args[0].Type().Underlying().(*types.Slice); ok && isRefLike(sl.Elem()) && len(com.Args) == 2 {
+				src := locSet{}
+				for l := range a.ext(a.derive(com.Args[1]), "[*]") {
+					if strings.HasPrefix(locRoot(l), "a:") {
+						for x := range m.pts[f][l] {
+							src[x] = true
+						}
+						continue
+					}
+					src[l] = true
+				}
+				dst := a.derive(com.Args[0])
+				if c, ok := site.(*ssa.Call); ok {
+					dst = locSet{}
+					for l := range a.derive(com.Args[0]) {
+						dst[l] = true
+					}
+					dst[m.aid(c)] = true
+				}
+				for d := range a.ext(dst, "[*]") {
+					if strings.HasPrefix(locRoot(d), "a:") {
+						ps := m.pts[f][d]
+						if ps == nil {
+							ps = locSet{}
+							m.pts[f][d] = ps
+						}
+						for x := range src {
+							if ps.add(x) {
+								m.changed = true
+							}
+						}
+					}
+				}
+				addCap(a.ext(dst, "[*]"), src)
 			}
 		case "delete", "clear":
 			writeAll(a.derive(com.Args[0]), "[*]")
@@ -661,6 +721,22 @@ func (m *ModAnalysis) analyse(f *ssa.Function) {
 					addMod(l)
 					if isRefLike(in.Val.Type()) {
 						addCap(locSet{l: true}, a.derive(in.Val))
+						// a local object stored into outside memory carries what its own cells refer to
+						for x := range a.derive(in.Val) {
+							if !strings.HasPrefix(locRoot(x), "a:") {
+								continue
+							}
+							for k, set := range m.pts[f] {
+								if k == x || !strings.HasPrefix(k, x) {
+									continue
+								}
+								rest := strings.TrimSuffix(k[len(x):], "#whole")
+								if rest != "" && rest[0] != '.' && rest[0] != '[' {
+									continue // a different allocation id with the same prefix
+								}
+								addCap(locSet{extend(l, rest): true}, set)
+							}
+						}
 					}
 				}
 			case *ssa.MapUpdate:
